@@ -235,12 +235,42 @@ def execute(setup: Callable[[prims.Sched], Any], policy: Optional[prims.Policy] 
             return CURRENT_OPEN(str(self), mode)
         return orig_path_open(self, mode, *a, **k)
     pathlib.Path.open = path_open
+    # ... and however it removes or probes that file (Path.unlink, os.remove, os.unlink, Path.exists, os.path.exists)
+    import os
+    orig_unlink, orig_exists, orig_remove, orig_os_unlink, orig_os_exists = pathlib.Path.unlink, pathlib.Path.exists, os.remove, os.unlink, os.path.exists
+
+    def _is_ours(path) -> bool:
+        try:
+            return os.path.basename(os.fspath(path)) in HARNESS_FILE_NAMES
+        except TypeError:
+            return False
+
+    def _remove(path, missing_ok=False):
+        key = os.fspath(path)
+        if key in LAST_STORE:
+            LAST_STORE.pop(key)
+        elif not missing_ok:
+            raise FileNotFoundError(2, 'No such file or directory', key)
+
+    def path_unlink(self, missing_ok=False):
+        return _remove(self, missing_ok) if _is_ours(self) else orig_unlink(self, missing_ok)
+
+    def path_exists(self, *a, **k):
+        return os.fspath(self) in LAST_STORE if _is_ours(self) else orig_exists(self, *a, **k)
+
+    def os_remove(path, *a, **k):
+        return _remove(path) if _is_ours(path) else orig_remove(path, *a, **k)
+
+    def os_exists(path):
+        return os.fspath(path) in LAST_STORE if _is_ours(path) else orig_os_exists(path)
+    pathlib.Path.unlink, pathlib.Path.exists, os.remove, os.unlink, os.path.exists = path_unlink, path_exists, os_remove, os_remove, os_exists
     try:
         collect = setup(s)
         s.run()
     finally:
         prims.CUR = None
         pathlib.Path.open = orig_path_open
+        pathlib.Path.unlink, pathlib.Path.exists, os.remove, os.unlink, os.path.exists = orig_unlink, orig_exists, orig_remove, orig_os_unlink, orig_os_exists
     bad = prims.FALLTHROUGH - prims.FALLTHROUGH_OK
     if bad:
         raise prims.InternalError(f'code under test reached for primitives that are not modelled: {sorted(bad)}')
